@@ -129,6 +129,8 @@ IndInit ==
 C03_NoOvershoot          == now <= endT
 C01_NothingInFlightAtReturn == ~Running => \A p \in Procs : ~pend[p]
 
+Consequences == C03_NoOvershoot /\ C01_NothingInFlightAtReturn
+
 (* action properties (Apalache: --inv on an operator with primes)           *)
 C03_Monotone   == now' >= now
 C03_EndFixed   == Running => endT' = endT
